@@ -186,6 +186,25 @@ def cases(ctx):
                 steps += [["rx", f"{A};255;3;0;{wake};1\n"], ["rx", f"{B};255;3;0;{wake};1\n"], ["rx", f"{A};255;3;0;{wake};1\n"]]
                 yield {"version": version, "steps": steps}
     ctx.exhaustive["parked-across-re-presentation-x-buffer-size"] = count
+    # send-side type tables: a command of EVERY value type parked for a child of every type (sleeping node), in both
+    # orders, then the wake releases each of them exactly once (commands of different types never replace each other)
+    count = 0
+    for version in ("2.0", "2.1", "2.2"):
+        wake = 32 if version == "2.2" else 22
+        for start in range(0, 40, 4):
+            for order in (1, -1):
+                if not ctx.mine():
+                    continue
+                count += 1
+                kids = list(range(start, start + 4))
+                steps = [["restore", A, {"type": 17, "version": "2.0", "sleeping": True,
+                                        "children": {str(ct): [ct, f"type {ct}", {}] for ct in kids}}]]
+                for ct in kids:
+                    for vt in list(range(0, 57))[::order]:
+                        steps.append(["tx", [A, ct, 1, (ct + vt) % 2, vt, f"c{ct}t{vt}"], True])
+                steps += [["rx", f"{A};255;3;0;{wake};1\n"], ["rx", f"{A};255;3;0;{wake};1\n"]]
+                yield {"version": version, "steps": steps}
+    ctx.exhaustive["send-side-type-tables"] = count
     for i in range(ctx.pick(400, 20000) // ctx.shard_count):
         version = ("2.0", "2.1", "2.2", None, "1.5")[i % 5]
         yield histories.with_reply_faults(rng, {"version": version,
